@@ -1,4 +1,6 @@
 import VermouthProofs.C01_Functional
+import VermouthProofs.C01_ModProofs
+import VermouthProofs.C01_Cover
 import VermouthProofs.Iso
 /-!
 # C01 — resolution transformation conserves atoms, residues and connectivity
@@ -38,12 +40,51 @@ theorem order_ties (ps : List Placement) (k : Int) :
 
 /-! ## one copy of the target block per placement, in order -/
 
-theorem beadOf_core (m : MolIn) (st : St) (n : Int × Attrs) : (beadOf m st n).core = n := by
-  obtain ⟨k, a⟩ := n
-  unfold beadOf Bead.core
+theorem beadOf_key (m : MolIn) (st : St) (n : Int × Attrs) : (beadOf m st n).key = n.1 := by
+  unfold beadOf
   split
   · rfl
   · split <;> rfl
+
+/-- a particle that has a resid (every particle made by `merge_molecule` has) keeps key, name,
+resid and charge group through the attribute loop -/
+theorem beadOf_core (m : MolIn) (st : St) (n : Int × Attrs) (hr : n.2.resid.isSome = true) :
+    (beadOf m st n).core = n := by
+  obtain ⟨k, a⟩ := n
+  obtain ⟨nm, rs, cg⟩ := a
+  cases rs with
+  | none => cases hr
+  | some r =>
+    unfold beadOf Bead.core
+    split
+    · rfl
+    · split <;> rfl
+
+theorem mem_enumFrom (l : List (Int × Attrs)) (s : Int) (x : Int × Attrs) (hx : x ∈ enumFrom s l) :
+    ∃ p ∈ l, x.2 = p.2 := by
+  induction l generalizing s with
+  | nil => cases hx
+  | cons y r ih =>
+    obtain ⟨k, a⟩ := y
+    simp only [enumFrom, List.mem_cons] at hx
+    rcases hx with rfl | hx
+    · exact ⟨(k, a), List.mem_cons_self, rfl⟩
+    · obtain ⟨p, hp, h⟩ := ih _ hx
+      exact ⟨p, List.mem_cons_of_mem _ hp, h⟩
+
+theorem nodesSpec_resid_some (o : Off) (ps : List Placement) :
+    ∀ n ∈ nodesSpec o ps, n.2.resid.isSome = true := by
+  induction ps generalizing o with
+  | nil => intro n hn; cases hn
+  | cons p ps ih =>
+    intro n hn
+    simp only [nodesSpec, List.mem_append] at hn
+    rcases hn with hn | hn
+    · unfold shiftNodes at hn
+      obtain ⟨q, hq, hnq⟩ := mem_enumFrom _ _ _ hn
+      obtain ⟨q0, _, rfl⟩ := List.mem_map.1 hq
+      rw [hnq]; rfl
+    · exact ih _ n hn
 
 /-- The output particle table (key, name, resid, charge group) is the concatenation, in
 processing order, of each placement's block nodes under the key shift and offsets of
@@ -54,9 +95,10 @@ theorem assemble_nodes (m : MolIn) (ps : List Placement) (r : Result) (h : assem
   unfold finish
   simp only [List.map_map]
   rw [(withInterEdges_spec m _ hok).1, (placeAll_spec _ hok).1]
-  have : (Bead.core ∘ beadOf m (placeAll (order ps))) = id := by
-    funext n; exact beadOf_core m _ n
-  rw [this, List.map_id]
+  conv => rhs; rw [← List.map_id (nodesSpec Off.zero (order ps))]
+  apply List.map_congr_left
+  intro n hn
+  exact beadOf_core m _ n (nodesSpec_resid_some _ _ n hn)
 
 /-- reading of `shiftNodes`: the `j`-th node of the block gets key `n + 1 + j`, its resid is the
 block-local resid (default 1) plus `roff`, its charge group the block-local one plus `coff` -/
@@ -125,18 +167,6 @@ theorem after_roff_single (o : Off) (pre : List Placement) (hs : ∀ q ∈ pre, 
       obtain ⟨n, hn, rfl⟩ := lastA_mem _ _ hl
       simp only [hq.2 n hn, List.length_cons, Int.natCast_add, Int.natCast_one]
       omega
-
-theorem mem_enumFrom (l : List (Int × Attrs)) (s : Int) (x : Int × Attrs) (hx : x ∈ enumFrom s l) :
-    ∃ p ∈ l, x.2 = p.2 := by
-  induction l generalizing s with
-  | nil => cases hx
-  | cons y r ih =>
-    obtain ⟨k, a⟩ := y
-    simp only [enumFrom, List.mem_cons] at hx
-    rcases hx with rfl | hx
-    · exact ⟨(k, a), List.mem_cons_self, rfl⟩
-    · obtain ⟨p, hp, h⟩ := ih _ hx
-      exact ⟨p, List.mem_cons_of_mem _ hp, h⟩
 
 /-- `resid_consecutive`: when every block is a single residue, the particles of the `i`-th
 placement (counting from 1) all have resid `i`: residues are numbered 1, 2, …, n in placement order. -/
@@ -222,14 +252,21 @@ mapping names one, otherwise the input resid of its first constituent atom; the 
 is never touched by it. -/
 theorem stash_old_resid (m : MolIn) (st : St) (n : Int × Attrs) (ws : List (Int × Rat))
     (hws : st.outToMol.lookup n.1 = some ws) :
-    (beadOf m st n).resid = n.2.resid
+    (n.2.resid.isSome = true → (beadOf m st n).resid = n.2.resid)
     ∧ (beadOf m st n).atoms = ws.map Prod.fst ∧ (beadOf m st n).weights = ws
     ∧ (∀ a, (st.refs.lookup n.1).bind m.atom? = some a → (beadOf m st n).oldResid = some a.resid)
     ∧ ((st.refs.lookup n.1).bind m.atom? = none →
         (beadOf m st n).oldResid = ((ws.map Prod.fst).filterMap m.atom?).head?.map (·.resid)) := by
-  cases hr : (st.refs.lookup n.1).bind m.atom? with
-  | none => simp [beadOf, hws, hr]
-  | some a => simp [beadOf, hws, hr]
+  obtain ⟨k, nm, rs, cg⟩ := n
+  cases hr : (st.refs.lookup k).bind m.atom? with
+  | none =>
+    cases rs with
+    | none => simp [beadOf, hws, hr]
+    | some r => simp [beadOf, hws, hr]
+  | some a =>
+    cases rs with
+    | none => simp [beadOf, hws, hr]
+    | some r => simp [beadOf, hws, hr]
 
 /-! ## weights -/
 
@@ -245,9 +282,7 @@ theorem weights_exact (m : MolIn) (ps : List Placement) (r : Result) (h : assemb
   unfold finish at hb
   simp only [List.mem_map] at hb
   obtain ⟨n, _, rfl⟩ := hb
-  have hcore := beadOf_core m (placeAll (order ps)) n
-  have hkey : (beadOf m (placeAll (order ps)) n).key = n.1 := by
-    have := congrArg Prod.fst hcore; simpa [Bead.core] using this
+  have hkey : (beadOf m (placeAll (order ps)) n).key = n.1 := beadOf_key m _ n
   rw [hkey, ← get2_addEntriesRev_iff _ hf a n.1 w, ← (placeAll_spec _ hok).2.2.1]
   unfold get2
   cases hl : (placeAll (order ps)).outToMol.lookup n.1 with
@@ -326,47 +361,27 @@ theorem hydrogens_logged (m : MolIn) (ps : List Placement) (r : Result) (h : ass
     simp only [List.mem_filter]
     exact ⟨ha, by simpa using hd⟩
 
-/-- `overlap_warned`: two placements that share an atom raise the inconsistent-data warning,
-provided the shared atom contributes to something in the earlier one (it has a weight entry there,
-or that block has a particle nothing maps to). -/
+/-- `overlap_warned`: two placements that share an atom raise the inconsistent-data warning
+(whether or not the shared atom contributes to a particle: the atoms of the placements applied
+so far are tracked explicitly since the fix of F-C01-4). -/
 theorem overlap_warned (m : MolIn) (ps : List Placement) (r : Result) (h : assemble m ps = .ok r)
     (pre mid post : List Placement) (p q : Placement)
     (hsplit : order ps = pre ++ p :: (mid ++ q :: post))
-    (a : Int) (hq : a ∈ q.atoms)
-    (hcov : (∃ ws blk w, (a, ws) ∈ p.molToBlock ∧ (blk, w) ∈ ws)
-            ∨ (a ∈ p.atoms ∧ stepSpawned (Off.zero.after pre) p ≠ [])) :
+    (a : Int) (hp : a ∈ p.atoms) (hq : a ∈ q.atoms) :
     r.warn.overlap = true := by
   obtain ⟨hok, rfl⟩ := assemble_ok m ps r h
-  -- `a` has an entry once `p` is placed
-  have hs := weightEntries_isSome ps pre p _ hsplit hok
-  have hentry : ∃ k w, (a, k, w) ∈ stepEntries (Off.zero.after pre) p := by
-    rcases hcov with ⟨ws, blk, w, h1, h2⟩ | ⟨h1, h2⟩
-    · cases hw : weightEntries p.block.keys ((Off.zero.after pre).n : Int) p.molToBlock with
-      | none => rw [hw] at hs; cases hs
-      | some wes =>
-        have hw' := hw
-        unfold weightEntries at hw'
-        obtain ⟨y, _, hfy⟩ := (mapM_some_mem _ _ _ hw').2 (a, blk, w) (by
-          simp only [List.mem_flatMap, List.mem_map]
-          exact ⟨(a, ws), h1, (blk, w), h2, rfl⟩)
-        cases hc : corrOf p.block.keys ((Off.zero.after pre).n : Int) blk with
-        | none => simp [hc] at hfy
-        | some k => exact ⟨k, w, (mem_stepEntries _ p a k w hs).2 (Or.inl ⟨ws, blk, h1, h2, hc⟩)⟩
-    · obtain ⟨k, hk⟩ := List.exists_mem_of_ne_nil _ h2
-      exact ⟨k, 0, (mem_stepEntries _ p a k 0 hs).2 (Or.inr ⟨hk, h1, rfl⟩)⟩
-  obtain ⟨k, w, he⟩ := hentry
-  -- state just before `q`
   have hsplit2 : order ps = (pre ++ p :: mid) ++ q :: post := by rw [hsplit]; simp
   obtain ⟨hpre, hinv, hstep⟩ := step_of_split _ _ post q hsplit2 hok
-  have hdom : a ∈ dom ((pre ++ p :: mid).foldl applyBlock {}).molToOut := by
-    rw [(fold_spec _ {} Off.zero inv_empty rfl hpre).2.2.1, mem_dom_addEntries]
-    right
-    exact ⟨(a, k, w), (mem_logSpec _ _ _).2 ⟨pre, p, mid, rfl, he⟩, rfl⟩
+  have hplaced : ((pre ++ p :: mid).foldl applyBlock {}).placed = (pre ++ p :: mid).map (·.atoms) := by
+    have := (fold_spec _ {} Off.zero inv_empty rfl hpre).2.2.2.2.2.1
+    simpa using this
   have hov : a ∈ (applyBlock ((pre ++ p :: mid).foldl applyBlock {}) q).overlap := by
     rw [(applyBlock_spec _ q _ hinv hpre hstep).2.2.2.2.1, mem_unionInt]
     right
-    simp only [List.mem_filter, List.contains_eq_mem, decide_eq_true_eq]
-    exact ⟨hq, hdom⟩
+    simp only [List.mem_filter, Bool.or_eq_true, List.any_eq_true, List.contains_eq_mem, decide_eq_true_eq]
+    refine ⟨hq, Or.inr ⟨p.atoms, ?_, hp⟩⟩
+    rw [hplaced]
+    simp
   have hfin : a ∈ (placeAll (order ps)).overlap := by
     unfold placeAll
     rw [hsplit2, List.foldl_append, List.foldl_cons]
@@ -558,8 +573,7 @@ example : (match assemble exMol [exP2, exP1] with
        true, false, true, true, false) := by decide
 -- hypotheses of `overlap_warned` on the instance with the overlapping third match
 example : order [exP3, exP2, exP1] = [exP1] ++ exP2 :: ([] ++ exP3 :: []) := by decide
-example : (∃ ws blk w, ((21 : Int), ws) ∈ exP2.molToBlock ∧ ((blk : Int), (w : Rat)) ∈ ws) :=
-  ⟨[(0, 1)], 0, 1, by decide, by decide⟩
+example : (21 : Int) ∈ exP2.atoms ∧ (21 : Int) ∈ exP3.atoms := by decide
 example : (match assemble exMol [exP3, exP2, exP1] with | .ok r => r.warn.overlap | .error _ => false) = true := by
   decide
 -- the reference matcher on a two-residue chain: C1-C2 fits once per residue, never across the
@@ -573,5 +587,136 @@ def exPat : List MNode :=
 example : refMatches exMolNodes [(1, 2), (2, 3), (3, 4)] exPat [(0, 1)] = [[(0, 1), (1, 2)], [(0, 3), (1, 4)]] := by
   decide
 example : (exPat.map (·.key)).Nodup ∧ (exMolNodes.map (·.key)).Nodup := by decide
+
+/-! ## modification mappings (`modification_matches`, `apply_mod_mapping`) -/
+
+/-- without modification matches the merged loop is the block loop: everything above applies to
+`assembleAll m ps []` -/
+theorem assembleAll_no_mods (m : MolIn) (ps : List Placement) : assembleAll m ps [] = assemble m ps := by
+  unfold assembleAll assemble placeAll
+  have : orderM ([] : List ModPlacement) = [] := rfl
+  simp only [List.any_nil, Bool.or_false, this, List.length_nil, Nat.add_zero]
+  rw [runAll_no_mods _ _ _ (Nat.le_refl _)]
+  split <;> rfl
+
+/-- `cover`: the modification mappings chosen for a group of modification names are known mappings,
+each names only modifications of the group, and together they name every modification of it -/
+theorem cover_sound (n : Nat) (group : List String) (known chosen : List (List String))
+    (h : cover n group known = some chosen) :
+    (∀ o ∈ chosen, o ∈ known ∧ ∀ x ∈ o, x ∈ group) ∧ (∀ x ∈ group, ∃ o ∈ chosen, x ∈ o) :=
+  cover_covers n group known chosen h
+
+/-- `mod_weights_recorded`: when a modification match is applied, every declared weight
+`atom ↦ modification node ↦ w` is recorded in both tables for the particle the node was created
+as / laid over (`Functional`: the match does not assign two weights to one pair) -/
+theorem mod_weights_recorded (st : St) (p : ModPlacement) (he : st.err = none)
+    (hok : (applyMod st p).err = none) (a b : Int) (ws : List (Int × Rat)) (w : Rat)
+    (ha : (a, ws) ∈ p.molToMod) (hb : (b, w) ∈ ws) :
+    ∃ out1 m2o es o, placeModNodes st p p.nodes st.out [] = some (out1, m2o)
+      ∧ modEntries m2o p.molToMod = some es ∧ m2o.lookup b = some o ∧ (a, o, w) ∈ es
+      ∧ (applyMod st p).molToOut = addEntries st.molToOut es
+      ∧ (Functional es →
+          get2 (applyMod st p).molToOut a o = some w ∧ get2 (applyMod st p).outToMol o a = some w) :=
+  applyMod_records st p he hok a b ws w ha hb
+
+/-- `overlay_keeps_identity`: applying a modification match never touches an existing particle:
+the particle table only grows at its end (new `PTM_atom` particles), so a particle a modification
+node is laid over keeps its key, name, resid and charge group; overlap and spawned sets are
+unchanged -/
+theorem overlay_keeps_identity (st : St) (p : ModPlacement) (he : st.err = none)
+    (hok : (applyMod st p).err = none) :
+    (∃ extra, (applyMod st p).out.nodes = st.out.nodes ++ extra)
+    ∧ (applyMod st p).overlap = st.overlap ∧ (applyMod st p).spawned = st.spawned := by
+  obtain ⟨_, _, _, _, _, _, _, _, h6, h7, h8⟩ := applyMod_spec st p he hok
+  exact ⟨h8, h6, h7⟩
+
+theorem insertDescM_perm (x : ModPlacement) (l : List ModPlacement) : (insertDescM x l).Perm (x :: l) := by
+  induction l with
+  | nil => exact List.Perm.refl _
+  | cons y ys ih =>
+    unfold insertDescM
+    split
+    · exact List.Perm.refl _
+    · exact (List.Perm.cons y ih).trans (List.Perm.swap x y ys)
+
+/-- every modification match is applied exactly once -/
+theorem orderM_perm (qs : List ModPlacement) : (orderM qs).Perm qs := by
+  unfold orderM
+  refine (List.reverse_perm _).trans ?_
+  induction qs with
+  | nil => exact List.Perm.refl _
+  | cons x xs ih => unfold sortDescM; exact (insertDescM_perm x _).trans (List.Perm.cons x ih)
+
+theorem assembleAll_ok (m : MolIn) (ps : List Placement) (qs : List ModPlacement) (r : Result)
+    (h : assembleAll m ps qs = .ok r) :
+    (runAll ((order ps).length + (orderM qs).length) (order ps) (orderM qs) {}).err = none
+    ∧ r = finish m (runAll ((order ps).length + (orderM qs).length) (order ps) (orderM qs) {}) := by
+  unfold assembleAll at h
+  split at h
+  · cases h
+  · simp only at h
+    split at h
+    · cases h
+    · rename_i he
+      cases h
+      exact ⟨he, rfl⟩
+
+/-- `mod_atom_accounted`: with block and modification matches, every atom of a matched
+modification that has a declared weight is in the correspondence table at the end, and every
+non-hydrogen atom of the molecule is in the table or the unmapped-atom warning is raised -/
+theorem mod_atom_accounted (m : MolIn) (ps : List Placement) (qs : List ModPlacement) (r : Result)
+    (h : assembleAll m ps qs = .ok r) :
+    (∀ q ∈ qs, ∀ a ws, (a, ws) ∈ q.molToMod → ws ≠ [] →
+        a ∈ dom (runAll ((order ps).length + (orderM qs).length) (order ps) (orderM qs) {}).molToOut)
+    ∧ (∀ a ∈ m.keys, isHyd m a = false →
+        a ∈ dom (runAll ((order ps).length + (orderM qs).length) (order ps) (orderM qs) {}).molToOut
+        ∨ r.warn.unmapped = true) := by
+  obtain ⟨hok, rfl⟩ := assembleAll_ok m ps qs r h
+  constructor
+  · intro q hq a ws hws hne
+    exact runAll_dom _ _ _ _ (Nat.le_refl _) hok a
+      (Or.inr ⟨q, (orderM_perm qs).symm.subset hq, ws, hws, hne⟩)
+  · intro a ha hH
+    by_cases hd : a ∈ dom (runAll ((order ps).length + (orderM qs).length) (order ps) (orderM qs) {}).molToOut
+    · exact Or.inl hd
+    · right
+      unfold finish
+      simp only [List.any_eq_true]
+      refine ⟨a, ?_, by simp [hH]⟩
+      unfold uncovered
+      simp only [List.mem_filter]
+      exact ⟨ha, by simpa using hd⟩
+
+/-! ### known finding F-C01-3 (do_mapping.py:336, upstream issue #154) as a witness -/
+
+def exB1 : Mol := { nodes := [(0, { name := some "B1", resid := some 1 })] }
+def exMol3 : MolIn :=
+  { atoms := [⟨0, 1, "X", "A", false⟩, ⟨1, 1, "X", "A", false⟩, ⟨10, 2, "X", "A", false⟩, ⟨11, 2, "X", "A", false⟩,
+              ⟨12, 2, "X", "A", false⟩, ⟨20, 3, "X", "A", false⟩, ⟨21, 3, "X", "A", false⟩],
+    edges := [(0, 1), (1, 10), (10, 11), (11, 12), (11, 20), (20, 21)] }
+def exRes (a b : Int) : Placement := { molToBlock := [(a, [(0, 1)]), (b, [(0, 1)])], block := exB1, refs := [] }
+/-- a modification on the second residue: anchor atom 11 laid over `B1`, PTM atom 12 becomes a new particle `Q1` -/
+def exMod : ModPlacement := ModPlacement.mk [(11, [(0, 1)]), (12, [(1, 1)])]
+  [ModNode.mk 0 { name := some "B1" } false, ModNode.mk 1 { name := some "Q1" } true] [(0, 1)] [] []
+
+/-- `residue_offset_restarts`: three residues, the second carries a modification whose mapping
+creates a new particle.  The new particle is the last node when the third block is merged and has
+no resid yet, so the third residue is numbered 2 again (and its charge group 2); the new particle
+then receives the INPUT resid of its atom.  Expected by the property: 1, 2, 2, 3. -/
+theorem residue_offset_restarts :
+    (match assembleAll exMol3 [exRes 0 1, exRes 10 11, exRes 20 21] [exMod] with
+     | .ok r => r.beads.map (fun (b : Bead) => (b.key, b.name, b.resid, b.cg))
+     | .error _ => [])
+    = [(1, some "B1", some 1, some 1), (2, some "B1", some 2, some 2), (3, some "Q1", some 2, none),
+       (4, some "B1", some 2, some 2)] := by decide
+
+-- hypotheses of the modification theorems on this instance
+example : (applyMod (placeAll [exRes 0 1, exRes 10 11]) exMod).err = none := by decide
+example : overlayTarget (placeAll [exRes 0 1, exRes 10 11]) exMod (ModNode.mk 0 { name := some "B1" } false) = some 2 := by
+  decide
+example : modKey exMod = 12 ∧ minKey (exRes 20 21) = 20 := by decide
+example : cover 3 ["PHOS", "METH"] [["METH", "PHOS"], ["PHOS"], ["METH"]] = some [["METH", "PHOS"]] := by decide
+example : cover 3 ["PHOS", "METH"] [["PHOS"], ["METH"]] = some [["PHOS"], ["METH"]] := by decide
+example : cover 2 ["PHOS"] [["METH"]] = none := by decide
 
 end C01
